@@ -580,3 +580,144 @@ def check_extremes(f):
 
     walk(f["body"], [])
     return problems, instances
+
+
+# ---- MERGE3: one step of the two-range merge algorithms, decided per ordering of the two heads -------------------
+MERGE_SPEC = {
+    # ordering of (*first1, *first2) -> (advance of first1, advance of first2, sources written to the output)
+    "set_union": {"<": (1, 0, ["1"]), "=": (1, 1, ["1"]), ">": (0, 1, ["2"])},
+    "set_intersection": {"<": (1, 0, []), "=": (1, 1, ["1"]), ">": (0, 1, [])},
+    "set_difference": {"<": (1, 0, ["1"]), "=": (1, 1, []), ">": (0, 1, [])},
+    "set_symmetric_difference": {"<": (1, 0, ["1"]), "=": (1, 1, []), ">": (0, 1, ["2"])},
+    "merge": {"<": (1, 0, ["1"]), "=": (1, 0, ["1"]), ">": (0, 1, ["2"])},
+}
+
+
+class _StepUnmodelled(Exception):
+    pass
+
+
+def merge_step(f, o):
+    """interpret one iteration of the (first) loop of a merge-like algorithm with both ranges non-empty and
+    ord(*first1, *first2) = o; returns (adv1, adv2, outputs)"""
+    from . import sets as SR
+    ps = [p["n"] for p in f["params"]]
+    if len(ps) < 6:
+        raise _StepUnmodelled("fewer than six parameters")
+    f1, l1, f2, l2, dest = ps[0], ps[1], ps[2], ps[3], ps[4]
+    cmps = set(functor_params(f))
+    loops = [st for st in (f["body"]["s"] if f["body"].get("k") == "seq" else [f["body"]]) if st.get("k") in ("for", "while")]
+    if not loops:
+        raise _StepUnmodelled("no top-level loop")
+    loop = loops[0]
+    state = {"adv1": 0, "adv2": 0, "out": []}
+
+    def truth(c):
+        c0 = astx.strip_casts(c)
+        if c0 is None:
+            raise _StepUnmodelled("empty condition")
+        k = c0.get("k")
+        if k == "paren":
+            return truth(c0.get("e"))
+        if k == "un" and c0["op"] == "!":
+            return not truth(c0["e"])
+        if k == "bin" and c0["op"] == "&&":
+            return truth(c0["l"]) and truth(c0["r"])
+        if k == "bin" and c0["op"] == "||":
+            return truth(c0["l"]) or truth(c0["r"])
+        if k == "bin" and c0["op"] in ("==", "!="):
+            names = {ref_name(c0["l"]), ref_name(c0["r"])}
+            if names in ({f1, l1}, {f2, l2}):
+                return c0["op"] == "!="          # both ranges still have elements
+        t = SR.pred_truth(c0, {f1}, {f2}, cmps, o)
+        if t is None:
+            raise _StepUnmodelled("condition `%s`" % astx.show(c0, 40))
+        return t
+
+    def source_of(e):
+        e0 = astx.strip_casts(e)
+        if e0 is not None and e0.get("k") == "un" and e0["op"] == "*":
+            inner = astx.strip_casts(e0["e"])
+            post = False
+            if inner is not None and inner.get("k") == "un" and inner["op"] == "++":
+                post = True
+                n = ref_name(inner["e"])
+            else:
+                n = ref_name(inner)
+            if n == f1:
+                if post:
+                    state["adv1"] += 1
+                return "1"
+            if n == f2:
+                if post:
+                    state["adv2"] += 1
+                return "2"
+        raise _StepUnmodelled("written value `%s`" % astx.show(e, 30))
+
+    def effect(e):
+        e0 = astx.strip_casts(e)
+        if e0 is None:
+            return
+        k = e0.get("k")
+        if k == "bin" and e0["op"] == ",":
+            effect(e0["l"])
+            effect(e0["r"])
+            return
+        if k == "un" and e0["op"] == "++":
+            n = ref_name(e0["e"])
+            if n == f1:
+                state["adv1"] += 1
+            elif n == f2:
+                state["adv2"] += 1
+            elif n != dest:
+                raise _StepUnmodelled("increment of `%s`" % n)
+            return
+        if k == "bin" and e0["op"] == "=":
+            l = astx.strip_casts(e0["l"])
+            if l is not None and l.get("k") == "un" and l["op"] == "*":
+                inner = astx.strip_casts(l["e"])
+                if inner is not None and inner.get("k") == "un" and inner["op"] == "++":
+                    inner = astx.strip_casts(inner["e"])
+                if ref_name(inner) == dest:
+                    state["out"].append(source_of(e0["r"]))
+                    return
+            raise _StepUnmodelled("assignment `%s`" % astx.show(e0, 30))
+        if k == "call":
+            raise _StepUnmodelled("call `%s`" % astx.show(e0, 30))
+        raise _StepUnmodelled("expression `%s`" % astx.show(e0, 30))
+
+    def run(st):
+        """returns 'next' | 'continue' | 'break' | 'return'"""
+        if st is None:
+            return "next"
+        k = st.get("k")
+        if k == "seq":
+            for c in st["s"]:
+                r = run(c)
+                if r != "next":
+                    return r
+            return "next"
+        if k == "if":
+            br = st.get("then") if truth(st["c"]) else st.get("else")
+            return run(br) if br else "next"
+        if k == "expr":
+            effect(st["e"])
+            return "next"
+        if k == "continue":
+            return "continue"
+        if k == "break":
+            return "break"
+        if k == "return":
+            return "return"
+        if k == "null":
+            return "next"
+        raise _StepUnmodelled("statement %s" % k)
+
+    if loop.get("c") is not None and not truth(loop["c"]):
+        raise _StepUnmodelled("the loop is not entered with two non-empty ranges")
+    r = run(loop.get("body"))
+    if r == "return":
+        raise _StepUnmodelled("the step returns")
+    if loop.get("k") == "for" and loop.get("inc") is not None and r in ("next", "continue"):
+        effect(loop["inc"])
+    return state["adv1"], state["adv2"], state["out"]
